@@ -146,6 +146,10 @@ def active_vars():
     return out
 
 
+def level_names(levels):
+    return [v.z.decl().name() for f in levels for v in f.vars]
+
+
 def level_vars(levels):
     out = []
     for f in levels:
